@@ -400,3 +400,211 @@ pub fn gen_seq(t: &mut Tape) -> Scenario {
     let _ = s;
     g.finish()
 }
+
+// ------------------------------------------------------------------------------------------
+// loops (C10, C11)
+// ------------------------------------------------------------------------------------------
+
+pub struct LoopOpts {
+    pub side: bool,
+    pub nested: bool,
+}
+
+struct Body {
+    steps: Vec<Step>,
+    cur: usize,
+    nlocal: usize,
+    repl: Repl,
+}
+
+impl Body {
+    fn un(&mut self, op: UnOp) {
+        self.repl = match &op {
+            UnOp::Shuffle | UnOp::Gb(..) | UnOp::Broadcast | UnOp::Win(..) => Repl::Unlimited,
+            UnOp::Repl(r) => *r,
+            UnOp::Gl(..) | UnOp::WinAll(..) => Repl::One,
+            _ => self.repl,
+        };
+        self.steps.push(Step::Un(self.cur, op));
+        self.cur = self.nlocal;
+        self.nlocal += 1;
+    }
+    fn unlimited(&mut self) {
+        if self.repl != Repl::Unlimited {
+            self.un(UnOp::Shuffle);
+        }
+    }
+}
+
+fn gen_spec(g: &mut Gen, depth: usize, in_len: usize, o: &LoopOpts) -> LoopSpec {
+    let iterate = g.t.draw(2) == 1;
+    let rounds = 1 + g.t.draw(if depth == 0 { 5 } else { 4 }) as usize;
+    let agg = [AggFn::Sum, AggFn::Count, AggFn::Xor, AggFn::Max][g.t.draw(4) as usize];
+    let (stop_mod, stop_rem) = if g.t.draw(if depth > 0 { 2 } else { 3 }) == 1 {
+        (2 + g.t.draw(3) as i64, g.t.draw(2) as i64)
+    } else {
+        (0, 0)
+    };
+    let use_state = depth == 0 && g.t.draw(2) == 1;
+    let cond_sleep_us = [0u64, 0, 200, 20_000, 120_000][g.t.draw(5) as usize];
+    let mut b = Body {
+        steps: vec![],
+        cur: 0,
+        nlocal: 1,
+        repl: Repl::Unlimited,
+    };
+    let nbody = 1 + g.t.draw(3) as usize;
+    let mut side_used = false;
+    let mut nested_used = false;
+    for _ in 0..nbody {
+        let mut k = g.t.draw(10);
+        if k >= 6 && k <= 8 && !(o.side && depth == 0 && !side_used) {
+            k = g.t.draw(6);
+        }
+        if k == 9 && !(o.nested && depth == 0 && !nested_used) {
+            k = g.t.draw(6);
+        }
+        match k {
+            0 | 1 => {
+                let op = match g.gen_map() {
+                    UnOp::FlatMap(_) if iterate => UnOp::Map(MapFn::Add(1)),
+                    op => op,
+                };
+                b.un(op);
+            }
+            2 => b.un(UnOp::Shuffle),
+            3 => {
+                let op = match g.gen_gb() {
+                    UnOp::Gb(GbForm::RichCounter, a) => UnOp::Gb(GbForm::Fold, a),
+                    op => op,
+                };
+                b.un(op);
+            }
+            4 => {
+                let bm = gen_bm(g.t, true);
+                b.un(UnOp::Batch(bm));
+            }
+            5 => {
+                let op = g.gen_gl();
+                b.un(op);
+            }
+            6..=8 => {
+                // side input: a stream built outside the loop
+                let n = [0usize, 1, 3, 12, 40, 300][g.t.draw(6) as usize];
+                let keys = g.gen_keys();
+                let par = g.t.draw(2) == 1;
+                let mut sid = g.add_source(par, n, keys);
+                if g.t.draw(3) == 2 {
+                    sid = g.un(sid, UnOp::Map(MapFn::Add(3)));
+                }
+                let sid = g.unlimited(sid);
+                g.attrs[sid].take();
+                let est = in_len * 2 * n / (keys as usize).max(1);
+                let bop = match k {
+                    6 => BinOp::Merge,
+                    7 if !iterate && est <= 4000 => g.gen_join(),
+                    7 => BinOp::Merge,
+                    _ => BinOp::Zip,
+                };
+                if matches!(bop, BinOp::Merge | BinOp::Zip) {
+                    b.unlimited();
+                }
+                b.repl = match &bop {
+                    BinOp::Join(_, JoinForm::BcastHash) | BinOp::Join(_, JoinForm::BcastSortMerge) => b.repl,
+                    BinOp::Zip => Repl::One,
+                    _ => Repl::Unlimited,
+                };
+                // zip: loop stream on either side
+                if matches!(bop, BinOp::Zip) && g.t.draw(2) == 1 {
+                    b.steps.push(Step::Bin(SIDE_BASE + sid, b.cur, bop));
+                } else {
+                    b.steps.push(Step::Bin(b.cur, SIDE_BASE + sid, bop));
+                }
+                b.cur = b.nlocal;
+                b.nlocal += 1;
+                side_used = true;
+            }
+            _ => {
+                // nested loop
+                b.unlimited();
+                let inner = gen_spec(g, depth + 1, in_len, o);
+                let it = inner.iterate;
+                b.steps.push(Step::Loop(b.cur, inner));
+                if it {
+                    let st = b.nlocal;
+                    let out = b.nlocal + 1;
+                    b.nlocal += 2;
+                    b.steps.push(Step::Bin(st, out, BinOp::Merge));
+                    b.cur = b.nlocal;
+                    b.nlocal += 1;
+                } else {
+                    b.cur = b.nlocal;
+                    b.nlocal += 1;
+                }
+                b.repl = Repl::Unlimited;
+                nested_used = true;
+            }
+        }
+    }
+    if iterate {
+        b.unlimited();
+    }
+    LoopSpec {
+        iterate,
+        rounds,
+        stop_mod,
+        stop_rem,
+        agg,
+        body: b.steps,
+        body_out: b.cur,
+        use_state,
+        cond_sleep_us,
+    }
+}
+
+pub fn gen_loopfam(t: &mut Tape, o: LoopOpts) -> Scenario {
+    let mut p = Profile::pipe();
+    p.family = "loop";
+    p.small_batches = true;
+    p.remote_bias = 45;
+    let mut g = Gen::new(t, p);
+    // a quarter of the runs on one core, where order (and thus positional zip) is determined
+    if g.t.draw(4) == 3 {
+        g.layout = Layout::Local(1);
+    }
+    let n = [0usize, 1, 5, 20, 60, 200][g.t.draw(6) as usize];
+    let keys = g.gen_keys();
+    let par = g.t.draw(3) != 0;
+    let mut s = g.add_source(par, n, keys);
+    if g.t.draw(3) == 2 {
+        let op = g.gen_map();
+        s = g.un(s, op);
+    }
+    let s = g.unlimited(s);
+    let spec = gen_spec(&mut g, 0, n, &o);
+    let a = g.attrs[s].take().unwrap();
+    let it = spec.iterate;
+    g.steps.push(Step::Loop(s, spec));
+    g.attrs.push(Some(Attr {
+        repl: Repl::One,
+        depth: 0,
+        len: 1,
+        keys: 1,
+    }));
+    if it {
+        g.attrs.push(Some(Attr {
+            repl: Repl::Unlimited,
+            depth: 0,
+            len: a.len * 2,
+            keys: a.keys.max(50),
+        }));
+    }
+    // sometimes keep processing the outputs
+    if g.t.draw(3) == 2 {
+        let open = g.open();
+        let i = open[g.t.draw(open.len() as u32) as usize];
+        let op = g.gen_map();
+        g.un(i, op);
+    }
+    g.finish()
+}
